@@ -120,18 +120,24 @@ def run(chk, facts_dir, tier):
     # summands
     if es_terms:
         named = set()
-        lens = 0
+        len_fields = set()
         flag = False
         for b in est_bodies:
             for i, j, s in b.assigns():
                 for o in (s["rv"].get("a"), s["rv"].get("b"), s["rv"].get("op")):
                     if isinstance(o, dict) and o.get("named"):
                         named.add(o["named"].split("::")[-1])
-            if b.kind == "Closure":
-                lens += len([1 for bi, t_ in b.calls() if (b.callee_decl(t_) or "").endswith("::len")])
+            bev_ = Ev(prog, b)
+            for bi, t_ in b.calls():
+                if (b.callee_decl(t_) or "").endswith("::len") and t_["args"]:
+                    recv = bev_.operand(t_["args"][0], (bi, "T"))
+                    for x in walk(recv):
+                        if isinstance(x, tuple) and x and x[0] == "field" and x[2] in ("stream_id", "event_name", "metadata", "payload") and "NewEvent" in str(x[3]):
+                            len_fields.add(x[2])
             if calls(b, "sierradb::id::get_uuid_flag"):
                 flag = True
         need = {"EVENT_HEADER_SIZE", "COMMIT_SIZE", "SEGMENT_HEADER_SIZE"}
+        lens = len(len_fields)
         if need <= named and lens >= 4 and flag:
             chk.ok("R19.2", "events_size = sum(EVENT_HEADER_SIZE + 4 lengths) + (COMMIT_SIZE unless flagged); checked against segment_size with SEGMENT_HEADER_SIZE", hb.where())
         else:
